@@ -32,6 +32,7 @@ type finding struct {
 	Family string     `json:"family,omitempty"`
 	Extra  string     `json:"extra,omitempty"`
 	Trig   []string   `json:"triggers,omitempty"`
+	Mech   []string   `json:"mechanism,omitempty"`
 }
 
 func (f finding) key() string {
@@ -238,7 +239,7 @@ func diffCase(in caseInput, cfgs []config, o diffOpts) diffOut {
 	budget := budgetFor(ref.Steps, len(p.Ins))
 	add := func(f finding) {
 		f.Prop = o.Prop
-		f.Trig = out.Triggers
+		f.Trig = append(append([]string{}, out.Triggers...), f.Mech...)
 		out.Findings = append(out.Findings, f)
 	}
 	for _, c := range cfgs {
@@ -309,12 +310,14 @@ func diffCase(in caseInput, cfgs []config, o diffOpts) diffOut {
 			}
 			fd := finalDiff(ref, &obs)
 			var wrongPath map[int][]int32
+			var lsMech []string
 			if o.Lockstep {
 				ls := lockstep(c, p, ref, &obs)
 				accStats(out.Stats, c, ls.Stats)
 				wrongPath = squashedRegVals(ls.Dyn, &obs)
+				lsMech = ls.Mech
 				if !ls.OK {
-					add(finding{Config: c, Class: ls.Class, Sub: ls.Sub, Detail: ls.Detail, Step: ls.Step, Final: fd != "", Extra: fd})
+					add(finding{Config: c, Class: ls.Class, Sub: ls.Sub, Detail: ls.Detail, Step: ls.Step, Final: fd != "", Extra: fd, Mech: ls.Mech})
 					if fd == "" {
 						out.Stats["masked-divergence:"+c.V]++
 					}
@@ -322,7 +325,7 @@ func diffCase(in caseInput, cfgs []config, o diffOpts) diffOut {
 				}
 			}
 			if fd != "" {
-				add(finding{Config: c, Class: "final-state", Sub: explainFinal(p, ref, &obs, wrongPath), Detail: fd, Final: true, Step: -1})
+				add(finding{Config: c, Class: "final-state", Sub: explainFinal(p, ref, &obs, wrongPath), Detail: fd, Final: true, Step: -1, Mech: lsMech})
 			}
 		}
 	}
